@@ -230,7 +230,11 @@ func genC16(g gen.G) C16Case {
 				refmodel.DepKeySet(m.DepM{Attrs: []m.AttrKeyM{ak}}).String() && g.Chance(60) {
 				continue // rely on the default value
 			}
-			if ak.Static != nil {
+			if g.Chance(10) {
+				// an expression without a static value: no body can be selected for this block
+				lines = append(lines, ak.Name+" = "+gen.Pick(g, c16NoStaticValue))
+				c.Target = -1
+			} else if ak.Static != nil {
 				lines = append(lines, ak.Name+" = "+litText(ak.Static.Cty()))
 			} else {
 				lines = append(lines, ak.Name+" = "+ak.Addr)
@@ -249,7 +253,11 @@ func genC16(g gen.G) C16Case {
 	} else {
 		for _, n := range attrNames {
 			if g.Chance(40) {
-				lines = append(lines, n+" = "+litText(gen.Pick(g, c16Vals)))
+				if g.Chance(15) {
+					lines = append(lines, n+" = "+gen.Pick(g, c16NoStaticValue))
+				} else {
+					lines = append(lines, n+" = "+litText(gen.Pick(g, c16Vals)))
+				}
 			}
 		}
 		if second >= 0 && g.Chance(40) {
@@ -299,6 +307,9 @@ func sameTypeVal(g gen.G, v cty.Value) cty.Value {
 	}
 	return cty.StringVal(gen.Pick(g, []string{"aws", "az", "1", "true"}))
 }
+
+// expressions that are neither references nor static values
+var c16NoStaticValue = []string{`"${var.q}"`, `lower("aws")`, `var.q ? "aws" : "az"`, `"pre-${var.q}"`, `f(var.q)`}
 
 func litText(v cty.Value) string {
 	switch v.Type() {
@@ -385,6 +396,12 @@ func checkC16(c C16Case) Result {
 		r.Class("nested-block")
 	}
 	sel := refmodel.Select(c.Block, blk)
+	if sel.Unresolvable {
+		// a key attribute of the static body has no static value: the lookup cannot succeed,
+		// whatever the other keys and the attribute's default are
+		sel = refmodel.Selection{Index: -1, Level1: -1, HasKeys: true, Keys: sel.Keys, Unresolvable: true}
+		r.Class("key-without-static-value")
+	}
 	if sel.Undetermined {
 		r.Exclude("dontcare:undetermined-selection")
 		return r
